@@ -252,7 +252,7 @@ def run_misc():
 
 def replay(case, key):
     out = _res()
-    for f in (run_errors, run_recovery, run_misc, run_actions, run_layout, run_dyn_disambiguation, run_items, run_closure_follow, run_scanner, run_gss, run_next_tokens):
+    for f in (run_errors, run_recovery, run_misc, run_actions, run_layout, run_dyn_disambiguation, run_items, run_closure_follow, run_scanner, run_gss, run_next_tokens, run_fqn):
         r = f()
         out["violations"].extend(r["violations"])
     return out
@@ -748,3 +748,29 @@ class _SymDict2(dict):
 
     def __len__(self):
         return len(self._syms)
+
+
+def run_fqn():
+    """companion of contracts/imports.py: real PGFileImport / GrammarSymbol objects on import chains of depth 0..3:
+    the qualified name is the dotted path of module names, outermost first, followed by the symbol's name"""
+    from parglare.grammar import NonTerminal, PGFileImport
+    out = _res()
+    names = ["base", "m1", "m2", "m3"]
+    for depth in range(0, 4):
+        chain = None
+        path = []
+        for i in range(depth):
+            imp = PGFileImport(names[i], f"/x/{names[i]}.pg", NS(imported_with=chain))
+            path.append(names[i])
+            chain = imp
+            out["evaluations"] += 1
+            if imp.fqn != ".".join(path):
+                _viol(out, "PGFileImport.fqn", {"chain": list(path)}, {"observed": imp.fqn})
+        sym = NonTerminal("Rule", imported_with=chain)
+        out["evaluations"] += 1
+        out["nontrivial"] += 1 if depth else 0
+        if sym.fqn != ".".join(path + ["Rule"]):
+            _viol(out, "GrammarSymbol.fqn", {"chain": list(path), "name": "Rule"}, {"observed": sym.fqn})
+    out["covers"] = ["PGFileImport.fqn", "GrammarSymbol.fqn"]
+    out["rule"] = "companion of contracts/imports.py: import chains of depth 0..3, a symbol imported through each"
+    return out
